@@ -1,4 +1,6 @@
 """C17 — streaming, non-streaming and OpenAI-compatible responses carry the same result."""
+import os
+
 from vlib import core
 from vlib.registry import COMMON_NOTE
 
@@ -56,6 +58,10 @@ THEOREMS = [
     "OllamaVerif.C17.tools_equiv_fixed_monotone",
     "OllamaVerif.C17.client_generate_equiv",
     "OllamaVerif.C17.client_chat_equiv",
+    "OllamaVerif.C17.client_view_fits",
+    "OllamaVerif.C17.client_long_line",
+    "OllamaVerif.C17.F17e_client_drops_long_reply",
+    "OllamaVerif.Tie.C17.client_limit_documented",
     "OllamaVerif.Tie.C17.reason_table_complete",
     "OllamaVerif.Tie.C17.reason_table_matches",
     "OllamaVerif.C17.F17a_split_loses_call",
@@ -65,7 +71,8 @@ THEOREMS = [
 ]
 # Which behaviour the oracle models (bit set = that proposed fix is in the tree under test):
 #   1 = proposed_fixes/C17-F17ab.patch (streaming tool path + call numbering), 2 = C17-F17c.patch (in /repo),
-#   4 = C17-F17b.patch alone (non-stream call numbering), 8 = C17-F17d.patch (run without done -> error).
+#   4 = C17-F17b.patch alone (non-stream call numbering), 8 = C17-F17d.patch (run without done -> error),
+#   16 = C17-F17e.patch (api.Client returns the scanner's error).
 # One edit when the lead applies a fix (or VERIF_C17_VARIANT for a scratch worktree).
 VARIANT = 14  # fixed in /repo: F17c (499276761, bit 2), F17b (bit 4), F17d (bit 8)
 OVERLAY = {"server/zz_verif_c17_test.go": "server/zz_verif_c17_test.go"}
@@ -89,11 +96,38 @@ def regenerate(ctx):
     core.write_generated("OllamaVerif/Generated/C17_Reasons.lean", body)
 
 
+def client_max_line(ctx):
+    """Tie 1: api.Client's scanner limit read from the source (`const maxBufferSize = <n> * format.<Unit>`)."""
+    import re
+    units = {"Byte": 1, "KiloByte": 1000, "MegaByte": 1000 ** 2, "GigaByte": 1000 ** 3,
+             "KibiByte": 1024, "MebiByte": 1024 ** 2, "GibiByte": 1024 ** 3}
+    try:
+        src = open(os.path.join(core.REPO, "api", "client.go")).read()
+    except OSError:
+        src = ""
+    m = re.search(r"maxBufferSize\s*=\s*(\d+)\s*\*\s*format\.(\w+)", src)
+    uses = bool(re.search(r"scanner\.Buffer\(\s*\w+\s*,\s*maxBufferSize\s*\)", src))
+    if m and m.group(2) in units and uses:
+        n = int(m.group(1)) * units[m.group(2)]
+        ctx.coverage["client_max_line"] = n
+    else:
+        # the constant is gone / not used: bufio.Scanner's own limit applies
+        ctx.coverage["client_max_line"] = "not found in api/client.go: bufio.MaxScanTokenSize (65536) assumed"
+        n = 64 * 1024
+    core.write_generated("OllamaVerif/Generated/C17_Client.lean",
+                         "-- REGENERATED on every run by vlib/checks/c17.py from /repo's api/client.go. Do not edit.\n"
+                         "namespace OllamaVerif.Generated.C17\n"
+                         "/-- the size of the bufio.Scanner buffer of api.Client.stream, in bytes -/\n"
+                         f"def clientMaxLine : Nat := {n}\n"
+                         "end OllamaVerif.Generated.C17\n")
+    return n
+
+
 def run(ctx):
     regenerate(ctx)
+    climit = client_max_line(ctx)
     ctx.lean_check(MODULES, THEOREMS)
-    import os
-    env = {"VERIF_CORPUS": os.path.join(core.ROOT, "corpus", "C17"), "VERIF_C17_VARIANT": os.environ.get("VERIF_C17_VARIANT", VARIANT), "VERIF_N": ctx.scale(7, 9), "VERIF_TEXTS": ctx.scale(16, 60), "VERIF_SAMPLES": ctx.scale(12, 64)}
+    env = {"VERIF_C17_CLIENT_MAX": climit, "VERIF_CORPUS": os.path.join(core.ROOT, "corpus", "C17"), "VERIF_C17_VARIANT": os.environ.get("VERIF_C17_VARIANT", VARIANT), "VERIF_N": ctx.scale(7, 9), "VERIF_TEXTS": ctx.scale(16, 60), "VERIF_SAMPLES": ctx.scale(12, 64)}
     if ctx.replay:
         env["VERIF_REPLAY"] = ctx.replay_line_file()
     rc, out, outdir = ctx.go_test("./server/", OVERLAY, "^TestVerifC17$", env=env, timeout=1500)
